@@ -463,7 +463,7 @@ func main() {
 		return cache[tier]
 	}
 	drv.Main(drv.Property{
-		ID: "C14", Level: "model_checking", PanicIsViolation: true, MemLimitGB: 4,
+		ID: "C14", Level: "model_checking", PanicIsViolation: true, MemLimitGB: 12,
 		Rule:        "every expression tree of depth <= 3 over the alphabet: leaves FromSlice(xs) for all xs over {1,2,3} of length <= 2 plus [1 2 3], [3 2 1], [1 3 2 4] and nil, From(1..3); TakeWhile/DropWhile/Filter x 5 predicates; Map x 3 functions; Plus; Join x 6 flat-map functions (nil, From(x), [x,x+1], nil-if-odd, [1..x], predicate-terminated TakeWhile for odd x / nil for even x); plus depth 4 in the form: every tree of depth <= 3 as the operand of every unary / Join root and of Plus with one of three leaves (nil, [1], [1 2]) on either side, checked by the drain and the source comparison without the error injection (the shape Plus(DropWhile(Plus(a,b),p),c) of seeded change C14-r2m1 lives there); thorough adds full depth 4 over a reduced alphabet (4 leaves, 7 unary, 3 joins) and its depth-5 extension of the same form. Each tree is rebuilt from fresh source slices (with sentinel-filled spare capacity) for every evaluation and driven as a state machine: at position i Value()==ref[i] and Next()==(i+1<len(ref)); nil iff the list is empty; ForEach with an error injected at every visit position; source slices and their spare capacity byte-identical afterwards. states = (tree, position) pairs, transitions = Next / visit steps; non-trivial = trees whose list has at least 2 elements",
 		Assumptions: []string{"iterators are not shared between two trees; Next() is not called again after it returned false", "element values and functions outside the alphabet are not covered; random deeper trees are not sampled"},
 		Cases: func(tier string) (int, func(int) string) {
